@@ -76,6 +76,10 @@ structure Run where
   exceeded : List Nat := []        -- positions whose retry executor has retriesExceeded set
   last : Outcome := ⟨0, none⟩      -- `LastResult` / `LastError` of the execution (copy) the current layers run on
   log : List Event := []
+  ext : Option Err := none         -- the execution has been cancelled from outside (context / async Cancel): the cause
+  cancelAt : Option (String × Nat) := none   -- scripted cancellation point: the k-th occurrence of an event ("fn", "rp.onRetryScheduled")
+  cancelCause : Err := Err.canceled          -- what the scripted cancellation reports (context.Canceled / ErrExecutionCanceled)
+  seenAt : Nat := 0                -- occurrences of the cancellation point's event so far
 deriving Repr
 
 abbrev Layer := Run → Option (PR × Run)
@@ -92,17 +96,72 @@ def setFailed (r : Run) (pos n : Nat) : Run := { r with failed := (pos, n) :: r.
 
 def timeoutResult : PR := failureResult Err.timeout
 
+/-- `IsCanceledWithResult`: the execution the current layers run on is cancelled, by its Timeout or from outside -/
+def Run.isCanc (r : Run) : Bool := r.cancelled || r.ext.isSome
+
+/-- the result a cancelled execution reports: the Timeout's stored result, else the external cause (`ctx.Err()` or the
+result `ExecutionResult.Cancel` stored) with `Done` set and both success flags clear -/
+def Run.cancelRes (r : Run) : PR :=
+  if r.cancelled then timeoutResult
+  else match r.ext with
+    | some e => failureResult e
+    | none => timeoutResult
+
+@[simp] theorem Run.cancelRes_done (r : Run) : r.cancelRes.done = true := by
+  unfold Run.cancelRes; split
+  · rfl
+  · split <;> rfl
+theorem Run.cancelRes_not_success (r : Run) : r.cancelRes.success = false ∧ r.cancelRes.successAll = false := by
+  unfold Run.cancelRes; split
+  · exact ⟨rfl, rfl⟩
+  · split <;> exact ⟨rfl, rfl⟩
+
+@[simp] theorem Run.isCanc_log (r : Run) (l : List Event) : ({ r with log := l } : Run).isCanc = r.isCanc := rfl
+@[simp] theorem Run.cancelRes_log (r : Run) (l : List Event) : ({ r with log := l } : Run).cancelRes = r.cancelRes := rfl
+
+/-- what `LastResult()` / `LastError()` show the user function: the last recorded outcome, except that `LastError` reports the
+context's error when no error is recorded and the context is done -/
+def Run.seenLast (r : Run) : Outcome :=
+  if r.last.err.isNone && r.ext.isSome then ⟨r.last.val, some Err.canceled⟩ else r.last
+
+/-- the scripted cancellation fires at the k-th occurrence of its event (the harness cancels from inside that callback) -/
+def Run.trigger (r : Run) (name : String) : Run :=
+  match r.cancelAt with
+  | some (nm, k) =>
+    if nm == name then
+      { r with seenAt := r.seenAt + 1, ext := if r.seenAt + 1 == k && r.ext.isNone then some r.cancelCause else r.ext }
+    else r
+  | none => r
+
+/-! the scripted cancellation point touches nothing but `ext` and its own counter -/
+@[simp] theorem Run.trigger_w (r : Run) (n : String) : (r.trigger n).w = r.w := by unfold Run.trigger; split <;> (try split) <;> rfl
+@[simp] theorem Run.trigger_script (r : Run) (n : String) : (r.trigger n).script = r.script := by unfold Run.trigger; split <;> (try split) <;> rfl
+@[simp] theorem Run.trigger_failed (r : Run) (n : String) : (r.trigger n).failed = r.failed := by unfold Run.trigger; split <;> (try split) <;> rfl
+@[simp] theorem Run.trigger_exceeded (r : Run) (n : String) : (r.trigger n).exceeded = r.exceeded := by unfold Run.trigger; split <;> (try split) <;> rfl
+@[simp] theorem Run.trigger_log (r : Run) (n : String) : (r.trigger n).log = r.log := by unfold Run.trigger; split <;> (try split) <;> rfl
+@[simp] theorem Run.trigger_attempts (r : Run) (n : String) : (r.trigger n).attempts = r.attempts := by unfold Run.trigger; split <;> (try split) <;> rfl
+@[simp] theorem Run.trigger_retries (r : Run) (n : String) : (r.trigger n).retries = r.retries := by unfold Run.trigger; split <;> (try split) <;> rfl
+@[simp] theorem Run.trigger_hedges (r : Run) (n : String) : (r.trigger n).hedges = r.hedges := by unfold Run.trigger; split <;> (try split) <;> rfl
+@[simp] theorem Run.trigger_execs (r : Run) (n : String) : (r.trigger n).execs = r.execs := by unfold Run.trigger; split <;> (try split) <;> rfl
+@[simp] theorem Run.trigger_inv (r : Run) (n : String) : (r.trigger n).inv = r.inv := by unfold Run.trigger; split <;> (try split) <;> rfl
+@[simp] theorem Run.trigger_cancelled (r : Run) (n : String) : (r.trigger n).cancelled = r.cancelled := by unfold Run.trigger; split <;> (try split) <;> rfl
+@[simp] theorem Run.trigger_inTimeout (r : Run) (n : String) : (r.trigger n).inTimeout = r.inTimeout := by unfold Run.trigger; split <;> (try split) <;> rfl
+@[simp] theorem Run.trigger_timeoutPos (r : Run) (n : String) : (r.trigger n).timeoutPos = r.timeoutPos := by unfold Run.trigger; split <;> (try split) <;> rfl
+@[simp] theorem Run.trigger_last (r : Run) (n : String) : (r.trigger n).last = r.last := by unfold Run.trigger; split <;> (try split) <;> rfl
+@[simp] theorem Run.trigger_ctxKey (r : Run) (n : String) : (r.trigger n).ctxKey = r.ctxKey := by unfold Run.trigger; split <;> (try split) <;> rfl
+
 /-- the user function: pops the next scripted outcome (an exhausted script succeeds with the zero value). A blocking
 outcome is released by the enclosing Timeout's timer: listener, then `Cancel(timeoutResult)`. -/
 def base : Layer := fun r =>
   -- the function observes the last recorded outcome of its execution
-  let r := r.emitSeen "fn" 0 r.last
+  let r := (r.emitSeen "fn" 0 r.seenLast).trigger "fn"
   match r.script with
   | [] => some (fnResult 0 none, { r with inv := r.inv + 1, execs := r.execs + 1 })
   | it :: rest =>
     let r := { r with script := rest, inv := r.inv + 1 }
     if it.blocks then
-      if !r.inTimeout then none
+      if r.ext.isSome then some (fnResult it.val it.err, { r with execs := r.execs + 1 })   -- released by the external cancellation
+      else if !r.inTimeout then none
       else
         let r := if r.cancelled then r else r.emit "to.onTimeoutExceeded" r.timeoutPos
         some (fnResult it.val it.err, { r with cancelled := true, execs := r.execs + 1 })
@@ -144,7 +203,7 @@ def retryLoop (pos : Nat) (m : Int) (retLast : Bool) (handle abort : List Cond) 
     match inner r with
     | none => none
     | some (res, r) =>
-      if r.cancelled then some (timeoutResult, r) else           -- IsCanceledWithResult
+      if r.isCanc then some (r.cancelRes, r) else                -- IsCanceledWithResult
       if r.exceeded.contains pos then some (res, r) else         -- retriesExceeded: pass through
       if isFailure handle res.outcome then
         let (res2, r) := retryOnFailure pos m retLast abort res.withFailure r
@@ -152,7 +211,9 @@ def retryLoop (pos : Nat) (m : Int) (retLast : Bool) (handle abort : List Cond) 
         else
           -- RecordResult, delay, InitializeRetry, listeners
           let r := { r with last := res2.outcome }
-          let r := r.emit "rp.onRetryScheduled" pos
+          let r := (r.emit "rp.onRetryScheduled" pos).trigger "rp.onRetryScheduled"
+          -- the delay wait is left at once when the execution is cancelled; InitializeRetry then reports the cancellation
+          if r.isCanc then some (r.cancelRes, r) else
           let r := { r with attempts := r.attempts + 1, retries := r.retries + 1 }
           let r := r.emit "rp.onRetry" pos
           retryLoop pos m retLast handle abort inner fuel r
@@ -179,7 +240,7 @@ def hedgeLoop (pos maxHedges : Nat) (cancelOn : List Cond) (inner : Layer) : Nat
     | it :: _ =>
       if it.blocks then
         -- the attempt blocks; its function has been entered (and has observed the last recorded outcome)
-        let r := r.emitSeen "fn" 0 r.last
+        let r := r.emitSeen "fn" 0 r.seenLast
         let r := { r with script := r.script.drop 1, inv := r.inv + 1 }
         if k < maxHedges then hedgeLoop pos maxHedges cancelOn inner fuel (k + 1) done (blocked + 1) r
         else
@@ -192,6 +253,8 @@ def hedgeLoop (pos maxHedges : Nat) (cancelOn : List Cond) (inner : Layer) : Nat
         match inner r with
         | none => none
         | some (res, r) =>
+          -- the coordinator first asks whether the parent execution has been cancelled meanwhile
+          if r.isCanc then some (r.cancelRes, { r with execs := r.execs + blocked }) else
           let isFinal := decide (done + 1 = maxHedges + 1)
           if isFinal || isCancellable cancelOn res.outcome then
             -- accepted: the other started attempts are cancelled and return
@@ -207,6 +270,7 @@ def hedgeLoop (pos maxHedges : Nat) (cancelOn : List Cond) (inner : Layer) : Nat
       match inner r with
       | none => none
       | some (res, r) =>
+        if r.isCanc then some (r.cancelRes, { r with execs := r.execs + blocked }) else
         let isFinal := decide (done + 1 = maxHedges + 1)
         if isFinal || isCancellable cancelOn res.outcome then some (res, { r with execs := r.execs + blocked })
         else if k < maxHedges then hedgeLoop pos maxHedges cancelOn inner fuel (k + 1) (done + 1) blocked r
@@ -268,7 +332,7 @@ def applyPolicy (fuel pos : Nat) : Policy → Layer → Layer
       | some (res, r) =>
         if isFailure h res.outcome then
           let r := r.emit "fb.onFailure" pos
-          if r.cancelled then some (timeoutResult, r) else
+          if r.isCanc then some (r.cancelRes, r) else
           let fo : Outcome := match k with | .value v => ⟨v, none⟩ | .error e => ⟨0, some e⟩
           -- the fallback function sees the failed outcome as the execution's last result
           let r := r.emitSeen "fb.fn" pos res.outcome
